@@ -375,6 +375,11 @@ def gmres(A: LinearOperator, B: torch.Tensor,
     # prepare the initial guess (it's just all zeros)
     x0shape = (ncols, *batchdims, nr, 1) if col_swapped else (*batchdims, nr, ncols)
     x0 = torch.zeros(x0shape, dtype=A.dtype, device=A.device)
+    if col_swapped:
+        # x: (ncols, *, nr, 1), i.e. every column is a separate single-column
+        # system stacked on a leading batch dimension
+        batchdims = (ncols, *batchdims)
+        ncols = 1
 
     r = B2 - A_fcn(x0)  # torch.Size([*batch_dims, nr, ncols])
     best_resid = r.norm(dim=-2, keepdim=True)  # / B_norm
@@ -430,6 +435,9 @@ def gmres(A: LinearOperator, B: torch.Tensor,
         warnings.warn(ConvergenceWarning(msg))
 
     res = best_res
+    if col_swapped:
+        # x: (ncols, *, nr, 1)
+        res = res.transpose(0, -1).squeeze(0)  # (*, nr, ncols)
     return res
 
 
